@@ -396,7 +396,14 @@ def e2e_case(ck: Check, camp, case: Case, cfg: Cfg, model: str, opts: dict) -> N
     except BaseException as e:  # noqa: BLE001
         if isinstance(e, (KeyboardInterrupt, SystemExit)):
             raise
-        ck.fail({**base, "mechanism": "import_error"}, inp, f"importing the emitted module raised {type(e).__name__}: {str(e)[:200]}")
+        cl = {**base, "mechanism": "import_error"}
+        if isinstance(e, TypeError) and "already defined" in str(e) and base["trigger"] == "none":
+            # the Enum class body binds one member name twice: which known mechanism produced the two equal names?
+            if c07.nfkc_unstable(res.code, []):
+                cl["trigger"] = "nfkc_member_name"  # C07's D21: distinct strings, one identifier after Python's NFKC normalisation
+            elif model == "pydantic_v2.BaseModel" and cfg.snake and cfg.cap:
+                cl["trigger"] = "v2_snake_after_capitalise"
+        ck.fail(cl, inp, f"importing the emitted module raised {type(e).__name__}: {str(e)[:200]}")
         return
     try:
         camp.distinct.add(json.dumps(inp, sort_keys=True, default=str))
@@ -619,8 +626,8 @@ def run(ck: Check) -> None:
 
     c09_defaults.campaign_steps(ck, 400 if quick else 4000)
     c09_defaults.campaign_defaults(ck, 260 if quick else 2600)
-    ck.search_hooks.append(search_enums)
     ck.search_hooks.append(c09_defaults.search_defaults)
+    ck.search_hooks.append(search_enums)
     known_findings(ck)
 
 
